@@ -25,7 +25,9 @@ def run(ctx):
                       "selected by start > end; each pushes format(n) before stepping; n starts at capture 1, end is "
                       "capture 2")
     ctx.rule("R12-7", "the relative order of the other words is kept: positions recorded during a pass's scan are not used "
-                      "after the token vector's length changed, except inside the one descending edit-list loop (E-EDITLIST)")
+                      "after the token vector's length changed, except inside the one descending edit-list loop (E-EDITLIST); a hand-kept "
+                      "position counter advances once per token; a position taken from enumerate() counts the elements of the "
+                      "token vector itself (no filter / skip / rev / zip between the vector and enumerate())")
     ctx.rule("R12-8", "`~` names the CURRENT home directory: the value expand_home splices in comes from a call of "
                       "env::var(\"HOME\") made during this expansion (on every path of the helper that supplies it), not "
                       "from a value remembered across calls (static / OnceLock / lazy)")
